@@ -41,6 +41,9 @@ GATE_CALLS = {
     "filter_by_path_includes_or_excludes": frozenset({"LINE"}),
 }
 ALL_ROLES = frozenset({"SELECTED", "RESULT", "LINE", "IN_RESULT_FOUND"})
+from . import flow as _flow  # noqa: E402
+
+_flow.STICKY_CALLS |= set(GATE_CALLS)
 EMPTY_INITS = ("[]", "{}", "set()", "dict()", "list()", "()", "None", "defaultdict(list)", "defaultdict(set)", "False", "''", '""', "0")
 EXTEND_METHODS = {"append", "add", "extend", "update", "insert", "setdefault", "appendleft"}
 WRAPPER_FUNCS = ("list", "sorted", "set", "tuple", "reversed", "enumerate", "iter", "frozenset", "dict")
@@ -167,9 +170,20 @@ class TransformerModel:
                     continue
                 roles |= self.value_roles(owner, m, ite, 10**9)
                 continue
+            if txt.startswith("EV:GATE:") and pol:
+                roles |= set(GATE_CALLS.get(txt[len("EV:GATE:"):], ()))  # the gate answered true earlier on this path
+                continue
             if txt.startswith(("EV:", "MATCH:")):
                 continue
             if not pol:
+                # `E is not None` where E was taken out of a gated collection: the element is one of the gated ones
+                if txt.endswith(" is None"):
+                    try:
+                        cmp_ = ast.parse(txt, mode="eval").body
+                    except SyntaxError:
+                        continue
+                    if isinstance(cmp_, ast.Compare):
+                        roles |= self.element_roles(owner, m, cmp_.left, 10**9)
                 continue
             try:
                 e = ast.parse(txt, mode="eval").body
@@ -213,7 +227,7 @@ class TransformerModel:
                 if isinstance(v, ast.Lambda):
                     return self.truthy_roles(owner, m, v.body, depth - 1)
                 return out
-            if la == "get" and isinstance(e.func, ast.Attribute):
+            if la in ("get", "pop", "popleft") and isinstance(e.func, ast.Attribute):
                 return self.value_roles(owner, m, e.func.value, 10**9)
             return out
         if isinstance(e, ast.Compare) and len(e.ops) == 1 and isinstance(e.ops[0], ast.In):
@@ -352,6 +366,22 @@ class TransformerModel:
                 return self._filter_roles(owner, m, v)
         return self.collection_roles(self.coll_key(owner, m, e))
 
+    def element_roles(self, owner: str, m: FuncInfo, e: ast.expr, before_line: int, depth: int = 3) -> set[str]:
+        """Roles of a single element expression taken out of a gated collection (pop / get / subscript / next)."""
+        if depth <= 0 or e is None:
+            return set()
+        if isinstance(e, ast.NamedExpr):
+            return self.element_roles(owner, m, e.value, before_line, depth)
+        if isinstance(e, ast.IfExp):
+            alts = [a for a in (e.body, e.orelse) if not (isinstance(a, ast.Constant) and a.value is None)]
+            sets = [self.element_roles(owner, m, a, before_line, depth - 1) for a in alts]
+            return set.intersection(*sets) if sets else set()
+        if isinstance(e, ast.Call) and isinstance(e.func, ast.Attribute) and e.func.attr in ("pop", "get", "popleft", "popitem"):
+            return self.value_roles(owner, m, e.func.value, before_line, depth - 1)
+        if isinstance(e, ast.Subscript):
+            return self.value_roles(owner, m, e.value, before_line, depth - 1)
+        return set()
+
     # ---------------------------------------------------------------- the fixpoint
     def _sites(self) -> dict[str, list[tuple[str, FuncInfo, ast.Call]]]:
         methods = self.all_methods()
@@ -418,6 +448,10 @@ class TransformerModel:
                     extra: set[str] = set()
                     if n.func.attr in ("extend", "update") and n.args:
                         extra = self.value_roles(owner, m, n.args[0], n.lineno)
+                    elif n.func.attr in ("append", "add", "appendleft") and n.args:
+                        # an element moved over from another gated collection (`stack.append(queue.pop() if queue else None)`):
+                        # it keeps that collection's roles; a None placeholder carries no obligation (consumers test `is not None`)
+                        extra = self.element_roles(owner, m, n.args[0], n.lineno)
                     store(key, set(self.site_roles(owner, m, n)) | extra)
                 elif isinstance(n, (ast.Assign, ast.AugAssign, ast.AnnAssign)):
                     targets = n.targets if isinstance(n, ast.Assign) else [n.target]
